@@ -150,7 +150,7 @@ def guard_signature(text: str) -> str:
     """What a guard is ABOUT, in a small fixed vocabulary - stable under re-spelling of the guard (out_degree(x) == 2,
     len(successors(x)) > 1, a local holding the degree), different for raises that test different things."""
     hits = [name for name, rx in GUARD_VOCAB if re.search(rx, text)]
-    return "+".join(hits[:2]) if hits else "-"
+    return "+".join(hits) if hits else "-"
 
 
 def trail_text(trail: list, limit: int = 25) -> list[str]:
